@@ -103,8 +103,7 @@ func (w Resolver) Resolve(id did.DID, _ *resolver.ResolveMetadata) (*did.Documen
 	if err != nil {
 		return nil, nil, fmt.Errorf("did:web HTTP response read error: %w", err)
 	}
-	var document did.Document
-	err = document.UnmarshalJSON(data)
+	document, err := resolver.ParseDocument(data)
 	if err != nil {
 		return nil, nil, fmt.Errorf("did:web JSON unmarshal error: %w", err)
 	}
@@ -113,5 +112,5 @@ func (w Resolver) Resolve(id did.DID, _ *resolver.ResolveMetadata) (*did.Documen
 		return nil, nil, fmt.Errorf("did:web document ID mismatch: %s != %s", document.ID, id)
 	}
 
-	return &document, &resolver.DocumentMetadata{}, nil
+	return document, &resolver.DocumentMetadata{}, nil
 }
